@@ -497,6 +497,69 @@ def small_scope_cases(seed, tier="thorough"):
     return cases
 
 
+def boundary_size_cases(seed, tier):
+    """sub-stream `boundary-sizes`: entity counts / indices just below, at and above 2^7, 2^8, 1000 (quick) and
+    2^15, 2^16 (thorough), on cheap bar-shaped meshes (n x 1 (x 1) cells).  The interesting content sits at the HIGH
+    end: the last cells are re-oriented, the highest-numbered edges/faces are reversed, and mesh parts (simple, with
+    topology + attribute, halo, nested child) are attached to the highest indices."""
+    rng = random.Random(seed * 7368787 + 11)
+    cases = []
+
+    def bar(kind, dim, n, depth):
+        verts, cells = grid_mesh(kind, dim, (n, 1, 1)[:dim], rng, perturb=False)
+        cells = [tuple(c) for c in cells]
+        ncell = len(cells)
+        # re-orient the last cells only (the low end stays in reference orientation)
+        for i in range(max(0, ncell - 6), ncell):
+            cells[i] = tuple(cells[i][j] for j in rng.choice(SYMS[(kind, dim)]))
+        m = build_topology(kind, dim, verts, cells, rng, scramble=False)
+        # reverse / re-orient the highest-numbered sub-entities and fix the sub-index sets
+        for f in range(1, dim):
+            ents = list(m.idx[(f, 0)])
+            for i in range(max(0, len(ents) - 8), len(ents)):
+                ents[i] = tuple(ents[i][j] for j in rng.choice(SYMS[(kind, f)]))
+            m.idx[(f, 0)] = ents
+        if dim == 1:
+            ed = list(m.idx[(1, 0)])
+            for i in range(max(0, len(ed) - 5), len(ed)):
+                if rng.random() < 0.6:
+                    ed[i] = (ed[i][1], ed[i][0])
+            m.idx[(1, 0)] = ed
+        for c in range(2, dim + 1):         # sub-index sets of entities are lookups by vertex set: unchanged
+            for f in range(1, c):
+                look = {frozenset(t): i for i, t in enumerate(m.idx[(f, 0)])}
+                m.idx[(c, f)] = [tuple(look[frozenset(t[j] for j in lf)] for lf in FIM[kind][c][f]) for t in m.idx[(c, 0)]]
+        # parts on the highest indices
+        top = [list(range(max(0, m.n(d) - 3), m.n(d))) for d in range(dim + 1)]
+        simple = {"halo": False, "targets": [list(reversed(t)) for t in top], "topo": None, "attr": None, "children": []}
+        simple["children"] = [{"halo": False, "targets": [[len(t) - 1] for t in top], "topo": None, "attr": None, "children": []}]
+        halo = {"halo": True, "targets": top, "topo": None, "attr": None, "children": []}
+        sets = [set() for _ in range(dim + 1)]
+        fd = dim - 1
+        bf = boundary_facets(m)
+        sets[fd] = set(bf[-3:])
+        tt = [sorted(x) for x in (closure(m, sets) if fd > 0 else sets)]
+        tp = {"halo": False, "targets": tt, "topo": part_topology(m, tt, lambda c, k: SYMS[(kind, c)][(k + 1) % len(SYMS[(kind, c)])]),
+              "attr": [Fraction(i, 2) for i in range(len(tt[0]))], "children": []}
+        cases.append(fmt_case(m, depth, [simple, halo, tp]) + " @boundary-sizes:%s%d:n%d" % (kind, dim, n))
+
+    for n in (127, 128, 129, 255, 256, 257, 1000, 1001):
+        bar(rng.choice((S, H)), 1, n, 2 if n < 300 else 1)
+    for n in (127, 128, 129, 255, 256):
+        bar(H, 2, n, 1)
+        bar(S, 2, n, 1)
+    for n in (127, 128, 129):
+        bar(H, 3, n, 1)
+        bar(S, 3, (n + 5) // 6, 1)        # 6 tetrahedra per brick: 127..129 cells are not reachable exactly; 22 bricks = 132
+    if tier == "thorough":
+        for n in (1000, 1001):
+            bar(H, 2, n, 1)
+            bar(S, 2, n // 2, 1)
+        for n in (32767, 32768, 65535, 65536, 65537):
+            bar(H, 1, n, 1)
+    return cases
+
+
 def gen_part(m, rng, allow_abort=False):
     D = m.dim
     style = rng.choice(["bnd", "bnd", "bndsub", "cells", "cells", "loose", "edges", "verts"])
@@ -533,7 +596,80 @@ def gen_part(m, rng, allow_abort=False):
         # part-local topology; local cells are re-oriented by a random symmetry, sub-index sets derived
         # with the part's own local-face convention
         topo = part_topology(m, targets, lambda c, k: rng.choice(SYMS[(m.kind, c)]))
-    return {"halo": rng.random() < 0.3, "targets": targets, "topo": topo}
+    part = {"halo": rng.random() < 0.3, "targets": targets, "topo": topo, "attr": None, "children": []}
+    if topo is not None and rng.random() < 0.5:
+        part["attr"] = [Fraction(rng.randint(-20, 20), rng.choice((1, 2, 3))) for _ in targets[0]]
+    if not part["halo"] and rng.random() < 0.35:
+        part["children"] = [gen_child_part(m, part, rng) for _ in range(rng.choice((1, 1, 2)))]
+    return part
+
+
+def part_as_mesh(m, part):
+    """the parent part seen as a mesh: its own entities, and its topology if it has one"""
+    pm = Mesh(m.kind, m.dim)
+    pm.nums = [len(t) for t in part["targets"]]
+    pm.idx = part["topo"] if part["topo"] is not None else {}
+    return pm
+
+
+def gen_child_part(m, parent, rng, dims=None):
+    """a child mesh part of `parent` (targets = indices of the PARENT PART's entities)"""
+    pm = part_as_mesh(m, parent)
+    D = m.dim
+    sets = [set() for _ in range(D + 1)]
+    closed = False
+    if parent["topo"] is not None and dims is None and rng.random() < 0.6:
+        top = max(d for d in range(D + 1) if pm.nums[d] > 0)
+        sets[top] = set(rng.sample(range(pm.nums[top]), rng.randint(1, min(pm.nums[top], 4))))
+        sets = closure(pm, sets) if top > 0 else sets
+        closed = True
+    else:
+        for d in (range(D + 1) if dims is None else dims):
+            if pm.nums[d] > 0 and (dims is not None or rng.random() < 0.6):
+                sets[d] = set(rng.sample(range(pm.nums[d]), rng.randint(1, min(pm.nums[d], 5))))
+    targets = [sorted(x) for x in sets]
+    for t in targets:
+        rng.shuffle(t)
+    topo = None
+    if closed and rng.random() < 0.6 and not (D == 3 and targets[3]):
+        topo = part_topology(pm, targets, lambda c, k: rng.choice(SYMS[(m.kind, c)]))
+    attr = None
+    if topo is not None and rng.random() < 0.5:
+        attr = [Fraction(rng.randint(-20, 20), rng.choice((1, 2))) for _ in targets[0]]
+    return {"halo": False, "targets": targets, "topo": topo, "attr": attr, "children": []}
+
+
+def signature_sweep(rng):
+    """deterministic: mesh parts of EVERY dimension signature (every non-empty subset of the dimensions 0..D that
+    carry entities), without topology, refined TWICE through the mesh-node tree, each with a nested child part of the
+    same signature; plus parts with topology and attributes for the closed signatures"""
+    cases = []
+    for kind in (S, H):
+        for dim in (2, 3):
+            verts, cells = grid_mesh(kind, dim, (2, 1, 1)[:dim], rng, perturb=False)
+            m = build_topology(kind, dim, verts, cells, rng, scramble=True)
+            for mask in range(1, 2 ** (dim + 1)):
+                dims = [d for d in range(dim + 1) if (mask >> d) & 1]
+                targets = [[] for _ in range(dim + 1)]
+                for d in dims:
+                    k = min(m.n(d), 3)
+                    targets[d] = rng.sample(range(m.n(d)), k)
+                    if m.n(d) - 1 not in targets[d]:
+                        targets[d][0] = m.n(d) - 1            # the highest index is always attached
+                part = {"halo": False, "targets": targets, "topo": None, "attr": None, "children": []}
+                part["children"] = [gen_child_part(m, part, rng, dims=dims)]
+                halo = {"halo": True, "targets": targets, "topo": None, "attr": None, "children": []}
+                cases.append(fmt_case(m, 2, [part, halo]) + " @signature-sweep:" + "".join(map(str, dims)))
+            for top in range(0, dim):          # closed signatures {0..top} with topology, attribute and child
+                sets = [set() for _ in range(dim + 1)]
+                sets[top] = set(rng.sample(range(m.n(top)), min(m.n(top), 3)))
+                targets = [sorted(x) for x in (closure(m, sets) if top > 0 else sets)]
+                topo = part_topology(m, targets, lambda c, k: SYMS[(kind, c)][k % len(SYMS[(kind, c)])])
+                part = {"halo": False, "targets": targets, "topo": topo,
+                        "attr": [Fraction(3 * i - 4, 2) for i in range(len(targets[0]))], "children": []}
+                part["children"] = [gen_child_part(m, part, rng), gen_child_part(m, part, rng)]
+                cases.append(fmt_case(m, 2, [part]) + " @signature-sweep:topo" + "".join(map(str, range(top + 1))))
+    return cases
 
 
 def file_part(m, fp, given_perm):
@@ -554,7 +690,7 @@ def file_part(m, fp, given_perm):
                     topo[(c, f)] = [tuple(vsets[frozenset(t[j] for j in lf)] for lf in FIM[m.kind][c][f]) for t in topo[(c, 0)]]
                 except KeyError:
                     return None
-    return {"halo": False, "targets": targets, "topo": topo}
+    return {"halo": False, "targets": targets, "topo": topo, "attr": None, "children": []}
 
 
 # ---- case formatting ----
@@ -574,14 +710,25 @@ def fmt_case(m, depth, parts):
         tok.extend(vlib.frac_str(Fraction(x)) for x in v)
     tok += fmt_mesh_idx(m.kind, m.dim, m.idx)
     tok.append(str(len(parts)))
-    for p in parts:
-        tok.append("h" if p["halo"] else "m")
+
+    def one(p, children):
+        tok.append("h" if p.get("halo") else "m")
         tok.append("1" if p["topo"] is not None else "0")
         for t in p["targets"]:
             tok.append(str(len(t)))
             tok.extend(map(str, t))
         if p["topo"] is not None:
-            tok += fmt_mesh_idx(m.kind, m.dim, p["topo"])
+            tok.extend(fmt_mesh_idx(m.kind, m.dim, p["topo"]))
+        if p.get("attr") is not None:
+            tok.append("1")
+            tok.extend(vlib.frac_str(Fraction(x)) for x in p["attr"])
+        else:
+            tok.append("0")
+        tok.append(str(len(children)))
+        for ch in children:
+            one(ch, [])
+    for p in parts:
+        one(p, [] if p.get("halo") else p.get("children", []))
     return " ".join(tok)
 
 
@@ -762,13 +909,15 @@ def parse_case(case):
     m = read_mesh(tk, kind, D)
     m.verts = [tuple(tk.frac() for _ in range(D)) for _ in range(m.nums[0])]
     m.idx = read_idx(tk, kind, D, m.nums)
-    parts = []
-    for _ in range(tk.nat()):
+    def one():
         halo = tk.tok() == "h"
         topo = tk.nat()
         targets = [tk.lst() for _ in range(D + 1)]
         t = read_idx(tk, kind, D, [len(x) for x in targets]) if topo else None
-        parts.append({"halo": halo, "targets": targets, "topo": t})
+        attr = [tk.frac() for _ in range(len(targets[0]))] if tk.nat() else None
+        nc = tk.nat()
+        return {"halo": halo, "targets": targets, "topo": t, "attr": attr, "children": [one() for _ in range(nc)]}
+    parts = [one() for _ in range(tk.nat())]
     return kind, D, depth, m, parts
 
 
@@ -789,14 +938,19 @@ def parse_levels(out, kind, D, nparts):
         tk.expect("P")
         if tk.nat() != nparts:
             raise ValueError("number of parts changed")
-        parts = []
-        for _ in range(nparts):
+        def one():
             tag = tk.tok()
             if tag not in ("S", "T"):
                 raise ValueError("bad part tag " + tag)
             targets = [tk.lst() for _ in range(D + 1)]
             t = read_idx(tk, kind, D, [len(x) for x in targets]) if tag == "T" else None
-            parts.append({"targets": targets, "topo": t})
+            tk.expect("A")
+            na = tk.nat()
+            attr = [tk.frac() for _ in range(na)] if na else None
+            tk.expect("C")
+            nc = tk.nat()
+            return {"targets": targets, "topo": t, "attr": attr, "children": [one() for _ in range(nc)]}
+        parts = [one() for _ in range(nparts)]
         levels.append((m, nb, bnd, parts))
     return levels
 
@@ -964,6 +1118,73 @@ def bary(pts):
     return tuple(sum(p[d] for p in pts) / n for d in range(len(pts[0])))
 
 
+def check_part(kind, D, label, coarse_nums, fine_nums, fine_verts_of, cp, fp):
+    """cp / fp: coarse / refined part attached to a parent (root mesh or parent part) with the entity counts
+    coarse_nums / fine_nums; fine_verts_of(c, x) = vertex tuple of the parent's fine c-entity x (None if the parent
+    has no topology).  Every refined entity must be attached to a child of the parent entity its coarse entity was
+    attached to; whatever the dimension signature of the part, it must really be refined (counts)."""
+    foff = {}
+    for c in range(D + 1):
+        pos = 0
+        for s in range(c, D + 1):
+            foff[(c, s)] = pos
+            pos += ref_count(kind, s, c) * coarse_nums[s]
+    if (cp["topo"] is None) != (fp["topo"] is None):
+        return "%s: topology appeared/disappeared" % label
+    for c in range(D + 1):
+        ft = fp["targets"][c]
+        pos = 0
+        for s in range(c, D + 1):
+            cnt = ref_count(kind, s, c)
+            for i, t in enumerate(cp["targets"][s]):
+                kids = ft[pos:pos + cnt]
+                if len(kids) != cnt:
+                    return ("%s: target set of dimension %d has %d entries, but the part's %d-entities alone have %d "
+                            "children of dimension %d (part not refined?)" % (label, c, len(ft), s, cnt * len(cp["targets"][s]), c))
+                lo = foff[(c, s)] + cnt * t
+                if sorted(kids) != list(range(lo, lo + cnt)):
+                    return ("%s: the %d-children of its %d-entity %d (attached to parent entity %d) are attached to %s, "
+                            "the children of that parent entity are %d..%d" % (label, c, s, i, t, kids, lo, lo + cnt - 1))
+                pos += cnt
+        if pos != len(ft):
+            return "%s: target set %d has %d entries, expected %d" % (label, c, len(ft), pos)
+        for x in ft:
+            if not (0 <= x < fine_nums[c]):
+                return "%s: target %d of dimension %d out of range" % (label, x, c)
+    if fp["topo"] is not None:
+        vt = fp["targets"][0]
+        for c in range(1, D + 1):
+            if len(fp["topo"][(c, 0)]) != len(fp["targets"][c]):
+                return "%s: topology size mismatch" % label
+            for j, t in enumerate(fp["topo"][(c, 0)]):
+                if any(not (0 <= v < len(vt)) for v in t):
+                    return "%s: topology vertex index out of range" % label
+                if fine_verts_of is not None:
+                    img = frozenset(vt[v] for v in t)
+                    want = frozenset(fine_verts_of(c, fp["targets"][c][j]))
+                    if img != want:
+                        return ("%s: its fine %d-entity %d has (mapped) vertices %s but is attached to parent entity %d "
+                                "with vertices %s" % (label, c, j, sorted(img), fp["targets"][c][j], sorted(want)))
+            for f in range(1, c):
+                for j, t in enumerate(fp["topo"][(c, 0)]):
+                    sub = fp["topo"][(c, f)][j]
+                    for k in range(nfaces(kind, c, f)):
+                        if not (0 <= sub[k] < len(fp["topo"][(f, 0)])):
+                            return "%s: topology index out of range" % label
+                        if frozenset(fp["topo"][(f, 0)][sub[k]]) != local_face(kind, c, f, t, k):
+                            return "%s: refined topology <%d,%d>[%d][%d] is not the local face" % (label, c, f, j, k)
+        # attributes: coarse values kept, new part vertices get the mean over the entity they are the midpoint of
+        if cp.get("attr") is not None:
+            exp = list(cp["attr"])
+            for s in range(1, D + 1):
+                if ref_count(kind, s, 0):
+                    for t in cp["topo"][(s, 0)]:
+                        exp.append(sum(cp["attr"][v] for v in t) / len(t))
+            if fp.get("attr") != exp:
+                return "%s: refined attribute %s..., expected %s..." % (label, (fp.get("attr") or [])[:6], exp[:6])
+    return None
+
+
 def check_level(co, fi, nb, bnd, cparts, fparts, in_parts_topo):
     """co: coarse mesh (valid), fi: fine mesh as produced by the implementation"""
     kind, D = co.kind, co.dim
@@ -1048,66 +1269,20 @@ def check_level(co, fi, nb, bnd, cparts, fparts, in_parts_topo):
         if bnd[d] != sorted(want_b[d]):
             return "computed boundary, dimension %d: %s..., expected the faces of the facets with one adjacent cell %s..." % (
                 d, bnd[d][:8], sorted(want_b[d])[:8])
-    # --- mesh parts follow their parents
-    foff = {}
-    for c in range(D + 1):
-        pos = 0
-        for s in range(c, D + 1):
-            foff[(c, s)] = pos
-            pos += ref_count(kind, s, c) * co.nums[s]
+    # --- mesh parts (refined through the mesh-node tree) follow their parents; child parts follow their parent part
     for pi, (cp, fp) in enumerate(zip(cparts, fparts)):
-        if (cp["topo"] is None) != (fp["topo"] is None):
-            return "part %d: topology appeared/disappeared" % pi
-        for c in range(D + 1):
-            ft = fp["targets"][c]
-            # expected layout: children of the part's c-entities first, then those of the (c+1)-entities, ...
-            pos = 0
-            for s in range(c, D + 1):
-                cnt = ref_count(kind, s, c)
-                for i, t in enumerate(cp["targets"][s]):
-                    kids = ft[pos:pos + cnt]
-                    if len(kids) != cnt:
-                        return "part %d: target set %d too short" % (pi, c)
-                    lo = foff[(c, s)] + cnt * t
-                    if cp["topo"] is None:
-                        if sorted(kids) != list(range(lo, lo + cnt)):
-                            return ("part %d: the %d-children of its %d-entity %d (attached to parent entity %d) are attached to %s, "
-                                    "the children of that parent entity are %d..%d" % (pi, c, s, i, t, kids, lo, lo + cnt - 1))
-                    else:
-                        if sorted(kids) != list(range(lo, lo + cnt)):
-                            return ("part %d (with topology): the %d-children of its %d-entity %d (attached to parent entity %d) are "
-                                    "attached to %s, the children of that parent entity are %d..%d" % (pi, c, s, i, t, kids, lo, lo + cnt - 1))
-                    pos += cnt
-            if pos != len(ft):
-                return "part %d: target set %d has %d entries, expected %d" % (pi, c, len(ft), pos)
-            for x in ft:
-                if not (0 <= x < fi.nums[c]):
-                    return "part %d: target %d of dimension %d out of range" % (pi, x, c)
-        if fp["topo"] is not None:
-            # the refined topology must describe the same entities as the targets
-            vt = fp["targets"][0]
-            pm = Mesh(kind, D)
-            pm.nums = [len(x) for x in fp["targets"]]
-            pm.idx = fp["topo"]
-            for c in range(1, D + 1):
-                if len(fp["topo"][(c, 0)]) != len(fp["targets"][c]):
-                    return "part %d: topology size mismatch" % pi
-                for j, t in enumerate(fp["topo"][(c, 0)]):
-                    if any(not (0 <= v < len(vt)) for v in t):
-                        return "part %d: topology vertex index out of range" % pi
-                    img = frozenset(vt[v] for v in t)
-                    want = frozenset(fi.idx[(c, 0)][fp["targets"][c][j]])
-                    if img != want:
-                        return ("part %d: its fine %d-entity %d has (mapped) vertices %s but is attached to parent entity %d "
-                                "with vertices %s" % (pi, c, j, sorted(img), fp["targets"][c][j], sorted(want)))
-                for f in range(1, c):
-                    for j, t in enumerate(fp["topo"][(c, 0)]):
-                        sub = fp["topo"][(c, f)][j]
-                        for k in range(nfaces(kind, c, f)):
-                            if not (0 <= sub[k] < len(fp["topo"][(f, 0)])):
-                                return "part %d: topology index out of range" % pi
-                            if frozenset(fp["topo"][(f, 0)][sub[k]]) != local_face(kind, c, f, t, k):
-                                return "part %d: refined topology <%d,%d>[%d][%d] is not the local face" % (pi, c, f, j, k)
+        e = check_part(kind, D, "part %d" % pi, co.nums, fi.nums, lambda c, x: fi.idx[(c, 0)][x], cp, fp)
+        if e:
+            return e
+        if len(cp.get("children", [])) != len(fp.get("children", [])):
+            return "part %d: number of child parts changed" % pi
+        for ci, (cc, fc) in enumerate(zip(cp.get("children", []), fp.get("children", []))):
+            pn_c = [len(t) for t in cp["targets"]]
+            pn_f = [len(t) for t in fp["targets"]]
+            look = (lambda c, x: fp["topo"][(c, 0)][x]) if fp["topo"] is not None else None
+            e = check_part(kind, D, "part %d child %d" % (pi, ci), pn_c, pn_f, look, cc, fc)
+            if e:
+                return e
     return None
 
 
@@ -1116,8 +1291,15 @@ def is_abnormal(out):
 
 
 def expect_abort(D, parts):
-    """documented limitation: StandardTargetRefiner is 'not implemented' for 3-D cells of a part WITH topology"""
-    return any(p["topo"] is not None and D == 3 and len(p["targets"][3]) > 0 for p in parts)
+    """documented limitations (loud aborts): StandardTargetRefiner is 'not implemented' for 3-D cells of a part WITH
+    topology; a child part with topology needs a parent part with topology"""
+    for p in parts:
+        allp = [p] + list(p.get("children", []))
+        if any(q["topo"] is not None and D == 3 and len(q["targets"][3]) > 0 for q in allp):
+            return True
+        if any(ch["topo"] is not None and p["topo"] is None for ch in p.get("children", [])):
+            return True
+    return False
 
 
 SAMPLER_DOC = {
@@ -1227,6 +1409,8 @@ def describe(case):
                 keys.append("src:" + (last[1:] if not last.startswith("@file:") else "file:" + last.rsplit(":", 1)[-1]))
                 if last.startswith("@file:"):
                     keys.append("meshfile:" + last[6:].rsplit(":", 1)[0])
+                if last.startswith("@boundary-sizes:"):
+                    keys.append("size:" + last[16:])
             keys += ["shape:%s%d" % (kind, D), "depth:%d" % depth,
                      "cells:%s" % ("1" if m.nums[D] == 1 else "2-8" if m.nums[D] <= 8 else "9-64" if m.nums[D] <= 64 else ">64")]
             valid = check_mesh(m) is None
@@ -1238,6 +1422,12 @@ def describe(case):
             for p in parts:
                 dims = "".join(str(d) for d in range(D + 1) if p["targets"][d])
                 keys.append("part:%s:%s:dims%s" % ("halo" if p["halo"] else "meshpart", "topo" if p["topo"] is not None else "simple", dims))
+                if p.get("attr") is not None:
+                    keys.append("part-attribute")
+                for ch in p.get("children", []):
+                    keys.append("childpart:%s-under-%s:dims%s" % (
+                        "topo" if ch["topo"] is not None else "simple", "topo" if p["topo"] is not None else "simple",
+                        "".join(str(d) for d in range(D + 1) if ch["targets"][d])))
                 if p["topo"] is not None and valid:
                     for c in range(1, D + 1):
                         for j, tt in enumerate(p["topo"][(c, 0)]):
@@ -1331,7 +1521,7 @@ def main(argv):
         if short:
             raise RuntimeError("deterministic sweeps no longer cover every relative orientation: %s" % short)
         small = small_scope_cases(args.seed, args.tier)
-        cases = corpus + sweep + psweep + small + gen_cases(rng, 800 if args.tier == "quick" else 6000, args.tier)
+        cases = corpus + sweep + psweep + signature_sweep(random.Random(args.seed * 15485863 + 5)) + small + gen_cases(rng, 800 if args.tier == "quick" else 6000, args.tier)
     if not args.replay and args.tier == "thorough":
         want = {"facecode:%s:face%d:code%d:%s" % (k, f, c, w) for k, nf, cs in ((H, 6, range(8)), (S, 4, (0, 1, 2, 4, 5, 6)))
                 for f in range(nf) for c in cs for w in ("interior", "boundary")}
@@ -1348,7 +1538,13 @@ def main(argv):
             "facet-connected 2-D meshes of <= 3 cells with all vertex orders of the cells, refined twice; depth 1-3; mesh parts and halos "
             "(boundary, cell patches, loose entity sets, with and without own topology, re-oriented part cells); "
             "non-trivial = valid input with >= 2 cells sharing a facet and a non-identity orientation code")
-    rc = vlib.run_pipeline(PROP, args.tier, args.seed, lean, [st], t0, assumptions=[
+    streams = [st]
+    if not args.replay:
+        bs = boundary_size_cases(args.seed, args.tier)
+        streams.append(vlib.Stream("boundary-sizes", bs, [binary], (None if t1_error else vlib.driver_cmd(PROP)),
+                                   oracle=oracle, nontrivial=nontrivial, describe=describe, signature=signature,
+                                   canon=canon, env={"VERIF_CASE_TIMEOUT": "300"}))
+    rc = vlib.run_pipeline(PROP, args.tier, args.seed, lean, streams, t0, assumptions=[
         "Index modelled as unbounded Nat (no 64-bit overflow at the sizes FEAT can allocate)",
         "coordinates at the exact rational type Q (vertex refinement is exact); chart adaption not covered",
         "orientation sampler hand-transcribed (not generated); target refiner child rules hand-transcribed",
